@@ -93,6 +93,11 @@ func c19Validate(c c19Case, msg string) string {
 		return fmt.Sprintf("header malformed: %q", firstLine(msg))
 	}
 	rest := strings.TrimPrefix(msg, "error: [IMM01] synthetic violation\n")
+	return c19ValidateExcerpt(c, rest)
+}
+
+// c19ValidateExcerpt judges the part of a message after its header line(s).
+func c19ValidateExcerpt(c c19Case, rest string) string {
 	if c.ReadMode == "error" {
 		if rest != "" {
 			return fmt.Sprintf("file unreadable but message carries more than the header: %q", rest)
